@@ -12,11 +12,19 @@ usage: seedtest.py <out_dir containing patch.diff demo.rs notes.md> <seed id> <p
 import json, os, re, shutil, subprocess, sys, time
 
 def sh(cmd, cwd=None, timeout=1800):
+    # own session, so that a timeout kills the whole process group (cargo, check, engines)
+    import signal
+    p = subprocess.Popen(cmd, cwd=cwd, shell=True, stdout=subprocess.PIPE, stderr=subprocess.STDOUT, text=True, start_new_session=True)
     try:
-        r = subprocess.run(cmd, cwd=cwd, shell=True, stdout=subprocess.PIPE, stderr=subprocess.STDOUT, text=True, timeout=timeout)
-        return r.returncode, r.stdout
-    except subprocess.TimeoutExpired as e:
-        return 124, (e.stdout or b"").decode() if isinstance(e.stdout, bytes) else (e.stdout or "") + "\nTIMEOUT"
+        out, _ = p.communicate(timeout=timeout)
+        return p.returncode, out
+    except subprocess.TimeoutExpired:
+        try:
+            os.killpg(p.pid, signal.SIGKILL)
+        except OSError:
+            pass
+        p.wait()
+        return 124, "TIMEOUT"
 
 def main():
     out_dir, sid, prop = sys.argv[1], sys.argv[2], sys.argv[3]
